@@ -76,7 +76,7 @@ def c_key(root):
 
     extra = "py%s-np%s-%s" % (
         sys.version.split()[0], numpy.__version__,
-        os.environ.get("ESUTIL_VERIF_SANITIZE", ""),
+        "asan2" if os.environ.get("ESUTIL_VERIF_SANITIZE") else "",
     )
     return _hash_files(root, files, extra)
 
@@ -97,7 +97,8 @@ def _build_ext(root, dest):
     env = dict(os.environ)
     env.pop("PYTHONPATH", None)
     if os.environ.get("ESUTIL_VERIF_SANITIZE"):
-        env["CFLAGS"] = "-fsanitize=address -fno-omit-frame-pointer -g"
+        env["CFLAGS"] = "-fsanitize=address -fno-omit-frame-pointer -g -O1"
+        env["CXXFLAGS"] = "-fsanitize=address -fno-omit-frame-pointer -g -O1"
         env["LDFLAGS"] = "-fsanitize=address"
     t0 = time.time()
     p = subprocess.run(
